@@ -133,14 +133,21 @@ def run(ctx):
         for b in sorted(f.live_blocks()):
             for i, s in enumerate(f.blocks[b]["stmts"]):
                 if s["k"] == "assign" and s["rv"]["k"] == "agg" and s["rv"].get("adt") == L.sv:
-                    e = dict(f.origin_rvalue(s["rv"])[3])[L.EXP]
-                    n_sites += 1
-                    if e[0] == "agg" and e[2] == "None":
-                        ctx.ok("R09.3", "%s|ctor-no-expiry" % n, "constructor stores no expiry", f.where(b, i))
-                    else:
-                        inner = e[3][0][1] if e[0] == "agg" and e[2] == "Some" else None
-                        ok = inner is not None and inner[0] == "call" and inner[1] in calc_names and all(a[0] == "param" for a in inner[2])
-                        ctx.check(ok, "R09.3", "%s|ctor-expiry-from-ttl" % n, "constructor stores Some(clock.now() + ttl) built from its own ttl and clock parameters", f.where(b, i), fmt(e))
+                    e0 = dict(f.origin_rvalue(s["rv"])[3])[L.EXP]
+                    # a shared private constructor taking the expiry as a parameter is judged at each of its call sites
+                    insts = [(f, n, e0, f.where(b, i))]
+                    if e0[0] == "param" and f.kind != "Closure":
+                        insts = []
+                        for g_, gb_, gt_ in [(g_, gb_, gt_) for n2_, g_ in F.fns.items() for gb_, gt_ in g_.calls() if gt_.get("rpath") == n and gt_["res"] == "item"]:
+                            insts.append((g_, g_.name, g_.op_origin(gt_["args"][e0[1] - 1]), g_.where(gb_)))
+                    for g_, gn_, e, where_ in insts:
+                        n_sites += 1
+                        if e[0] == "agg" and e[2] == "None":
+                            ctx.ok("R09.3", "%s|ctor-no-expiry" % gn_, "constructor stores no expiry", where_)
+                        else:
+                            inner = e[3][0][1] if e[0] == "agg" and e[2] == "Some" else None
+                            ok = inner is not None and inner[0] == "call" and inner[1] in calc_names and all(a[0] == "param" for a in inner[2])
+                            ctx.check(ok, "R09.3", "%s|ctor-expiry-from-ttl" % gn_, "constructor stores Some(clock.now() + ttl) built from its own ttl and clock parameters", where_, fmt(e))
         # field writes of the expiry
         if f.argc >= 1 and sv_short in f.locals[1]["ty"]:
             for (b, i, tgt, rv, st) in f.stores():
